@@ -8,8 +8,8 @@ import traceback
 sys.path.insert(0, os.path.dirname(os.path.abspath(__file__)))
 from common import SPEC, ToolError, build_harness, log, sany, seed_tier  # noqa: E402
 
-CODEC_PROPS = {"C09", "C14", "C16", "C18"}
-CLIENT_PROPS = {"C05", "C06", "C07", "C08", "C13", "C10", "C11", "C12", "C15", "C17"}
+CODEC_PROPS = {"C01", "C02", "C04", "C09", "C10", "C14", "C16", "C18"}
+CLIENT_PROPS = {"C05", "C06", "C07", "C08", "C13", "C11", "C12", "C15", "C17"}
 
 
 def setup():
@@ -40,12 +40,12 @@ def main(argv):
             tier_arg = rest[i]
             i += 1
     seed, tier = seed_tier(tier_arg)
-    if cmd in CLIENT_PROPS:
-        import client
-        return client.run(cmd, tier, seed, replay)
     if cmd in CODEC_PROPS:
         import codec
         return codec.run(cmd, tier, seed, replay)
+    if cmd in CLIENT_PROPS:
+        import client
+        return client.run(cmd, tier, seed, replay)
     print("unknown property / command", cmd)
     return 2
 
